@@ -101,10 +101,30 @@ func VH_C18_ArrayRejected() {
 	n := uint64(len(model))
 	before := vhSnapArray(storage, a.root.SlabID(), nil)
 	storage.writes = 0
-	op := vhChoose("op", 7)
+	op := vhChoose("op", 8)
 	var err error
 	wantIdx, wantSlice, wantInvalid := false, false, false
 	switch op {
+	case 7: // a ledger read fails during an in-range lookup / iteration: external error, nothing changes
+		if n == 0 {
+			return
+		}
+		i := uint64(vhChoose("idx", int(n)))
+		storage.retrCalls = 0
+		storage.retrFailAt = 1 + vhChoose("failat", 2)
+		if vhChoose("api", 2) == 0 {
+			_, err = a.Get(i)
+		} else {
+			err = a.IterateReadOnly(func(Value) (bool, error) { return true, nil })
+		}
+		injected := storage.retrCalls >= storage.retrFailAt
+		storage.retrFailAt = 0
+		if !injected {
+			vhAssert(err == nil, "lookup without a failing read succeeds")
+			return
+		}
+		vhAssert(err != nil, "failing ledger read surfaces")
+		vhAssert(vhIsExternal(err), "failing ledger read is an external error")
 	case 0:
 		i := vhU64("idx")
 		vhAssume(i >= n)
